@@ -160,6 +160,106 @@ mut('C12', 'worker_teardown_calls_removed', S, """				defer func() {
 				}()
 """, "")
 
+# ---- Agent.Run (C03 dry, C04 preconditions, C08 recording, C14 refusal, C16 probe)
+A = 'internal/agent/agent.go'
+mut('C16', 'probe_removed', A, """	// Check if the DAG is already running.
+	if err := a.checkIsAlreadyRunning(); err != nil {
+		return err
+	}
+""", """	// Check if the DAG is already running.
+	_ = a.checkIsAlreadyRunning()
+""")
+mut('C16', 'probe_after_history_is_opened', A, """	// Check if the DAG is already running.
+	if err := a.checkIsAlreadyRunning(); err != nil {
+		return err
+	}
+
+	// Make a connection to the database.
+	// It should close the connection to the history database when the DAG
+	// execution is finished.
+	if err := a.setupDatabase(); err != nil {
+		return err
+	}
+""", """	// Make a connection to the database.
+	// It should close the connection to the history database when the DAG
+	// execution is finished.
+	if err := a.setupDatabase(); err != nil {
+		return err
+	}
+	// Check if the DAG is already running.
+	if err := a.checkIsAlreadyRunning(); err != nil {
+		return err
+	}
+""")
+mut('C16', 'probe_accepts_any_status_but_running', A, """	if status.Status != scheduler.StatusNone {
+		return fmt.Errorf(""", """	if status.Status == scheduler.StatusRunning {
+		return fmt.Errorf(""")
+mut('C03', 'dry_run_checked_after_history_is_opened', A, """	// Handle dry execution.
+	if a.dry {
+		return a.dryRun()
+	}
+
+	// Check if the DAG is already running.
+	if err := a.checkIsAlreadyRunning(); err != nil {
+		return err
+	}
+
+	// Make a connection to the database.
+	// It should close the connection to the history database when the DAG
+	// execution is finished.
+	if err := a.setupDatabase(); err != nil {
+		return err
+	}
+""", """	// Check if the DAG is already running.
+	if err := a.checkIsAlreadyRunning(); err != nil {
+		return err
+	}
+
+	// Make a connection to the database.
+	// It should close the connection to the history database when the DAG
+	// execution is finished.
+	if err := a.setupDatabase(); err != nil {
+		return err
+	}
+
+	// Handle dry execution.
+	if a.dry {
+		return a.dryRun()
+	}
+""")
+mut('C04', 'unmet_dag_preconditions_only_logged', A, """	if err := a.checkPreconditions(); err != nil {
+		return err
+	}
+""", """	if err := a.checkPreconditions(); err != nil {
+		a.logger.Error("Preconditions are not met", "error", err)
+	}
+""")
+mut('C14', 'graph_error_only_logged', A, """	graph, err := scheduler.NewExecutionGraph(a.logger, a.dag.Steps...)
+	if err != nil {
+		return err
+	}
+	a.graph = graph
+	return nil""", """	graph, err := scheduler.NewExecutionGraph(a.logger, a.dag.Steps...)
+	if err != nil {
+		a.logger.Error("Invalid graph", "error", err)
+		graph, _ = scheduler.NewExecutionGraph(a.logger)
+	}
+	a.graph = graph
+	return nil""")
+mut('C08', 'final_status_write_removed', A, """	a.logger.Info("Workflow execution finished", "status", finishedStatus.Status)
+	if err := a.historyStore.Write(a.Status()); err != nil {
+		a.logger.Error("Status write failed", "error", err)
+	}
+""", """	a.logger.Info("Workflow execution finished", "status", finishedStatus.Status)
+""")
+mut('C08', 'initial_status_write_removed', A, """	if err := a.historyStore.Write(a.Status()); err != nil {
+		a.logger.Error("Failed to write status", "error", err)
+	}
+
+	// Start the unix socket server""", """	// Start the unix socket server""")
+mut('C03', 'scheduler_not_told_about_dry', A, """		Dry:           a.dry,
+""", "")
+
 # ---- C09 daemon
 D = 'internal/scheduler/scheduler.go'
 J = 'internal/scheduler/job.go'
